@@ -48,3 +48,22 @@ CHECKS["C20"] = {
                    "classes with an independent big-integer reference; covers the 2^31/2^63/2^64 representation boundaries."),
     "level_note": "Alphabet and box bounds; Python big integers trusted.",
 }
+
+CHECKS["C13"] = {
+    "level": "exploration",
+    "technique": "exhaustive enumeration of fixed-width operands and wrapped intervals against modular arithmetic in unsigned __int128",
+    "design_ref": "DESIGN.md §2 C13",
+    "jobs": [{"bin": "c13_wrapped", "deadline": {"quick": 200, "thorough": 1500}}],
+    "rule": ("wrapint: widths 1..5 (7 thorough) ALL operand pairs, widths 1..64 all pairs of a boundary alphabet "
+             "{0,1,2,3,smax,smin,smin+1,umax-1,umax,0x55..,0xAA..,w-1,w} x 18 binary ops, comparisons, unary ops, "
+             "sext/zext/keep_lower, signed/unsigned bignum and string conversions. wrapped_interval: widths 1..4 "
+             "(5 thorough) every (start,end), top, bottom; all ordered pairs x {+,-,*,SDiv,UDiv,SRem,URem,And,Or,Xor,"
+             "Shl,LShr,AShr}, join/meet/widening(+thresholds)/narrowing/inclusion/trim, neg, half lines, "
+             "Trunc/SExt/ZExt, to_interval, at: every bit-vector result of every member pair must be a member of the result. "
+             "distinct_nontrivial = distinct operand pairs other than 0/1 (wrapint) or bottom/top (intervals)."),
+    "assumptions": ["LLVM semantics: division by zero, INT_MIN/-1 and shifts >= width are undefined and skipped",
+                    "wrapint(z_number) only called when fits_wrapint() holds (documented precondition)"],
+    "level_text": ("Complete enumeration of all operands at small widths (where every wrap-around/pole-crossing shape exists) plus "
+                   "boundary operands at every width 1..64, on the real wrapint / wrapped_interval classes."),
+    "level_note": "Widths bounded as stated; machine-integer *programs* for wrapped_interval_domain are covered by C01/C03 engines when instantiated with that domain.",
+}
